@@ -165,6 +165,7 @@ def main():
                 'CriticMarkup, raw HTML, metadata keys/values, line ends, end of input) each filled with 1-6 items mixing %d special code points with every syntax character; '
                 'x 8 textual formats (+1 package every 4th) x smart/compat/complete/snippet/obfuscate/critic variants x 7 languages; every output validated; '
                 'distinct = distinct (source, ext, lang); all are non-trivial (>= 3 hostile slots)' % (len(slots.ALL_KINDS), len(SPECIAL)))
+    chk.rule = chk.rule + ' ; plus: image / link attribute values, the OPML / ITMZ outline just written read back and rendered to five formats, raw-source fences left open at end of input inside containers'
     chk.assumptions = ['inputs are valid UTF-8 by construction']
     chunk = max(20, n // 64)
     chk.run_jobs(work, [(chk.seed, lo, min(n, lo + chunk)) for lo in range(0, n, chunk)])
